@@ -2,24 +2,26 @@ import SelenModel.Lemmas.Kinds.Common2
 /-
 Contract proofs for the propagator kind `modulo` (`Modulo::prune`, model `pruneMod`).
 
-The propagator is UNSOUND in general (recorded findings, reproduced by the model): it clamps the
-result to `[0, y-1]` (wrong for negative dividends), returns success without any check when the
-divisor range contains `0`, and samples only boundary values when the ranges are wide.  Hence
-* `sound_modulo` carries the store precondition `ModOk` (non-negative dividend, positive divisor,
-  no boundary sampling), which is preserved by every `Good` step (`modOk_good`);
-* `checking_modulo` assumes that the divisor range excludes `0`;
-* `contracting_modulo` and `resp_modulo` hold unconditionally;
-* four kernel-checked counterexamples show that each precondition is needed.
+The pinned propagator was unsound in four ways (each repaired by a `fix:` commit; the kernel-checked
+witnesses below now state the repaired behaviour): it clamped the result to `[0, y-1]` by the sign of
+the divisor, scanned the multipliers of the back-propagation in the wrong order for a negative
+divisor, returned success without any check when the divisor was fixed to `0`, and took bounds
+from candidate remainders sampled at boundary values only when the ranges were wide.  What the proofs
+still use:
+* `sound_modulo` carries the store precondition `ModOk` (non-negative dividend, positive divisor),
+  which is preserved by every `Good` step (`modOk_good`) — soundness for negative operands is
+  validated by the correspondence and the brute-force oracle, not proved;
+* `checking_modulo` holds unconditionally (`checking_modulo_all`);
+* `contracting_modulo` and `resp_modulo` hold unconditionally.
 -/
 namespace Selen
 namespace KModulo
 open Selen.PK Selen.Lin Selen.IView Selen.Ctx Selen.Dom Selen.KAbsMinMax.PK Selen.K2
 
 /-- store precondition under which `Modulo::prune` is sound: non-negative dividend, positive divisor,
-and no boundary sampling (CASE 3 enumerates all pairs) -/
+(bounds are taken from CASE 3 only when it enumerated all pairs: `modExh`) -/
 def ModOk (x y : IView) (st : Store) : Prop :=
-  0 ≤ x.minRaw st ∧ 0 < y.minRaw st ∧ y.maxRaw st - y.minRaw st ≤ 10 ∧
-  (y.minRaw st = y.maxRaw st ∨ x.maxRaw st - x.minRaw st ≤ 10)
+  0 ≤ x.minRaw st ∧ 0 < y.minRaw st
 
 namespace PK
 
@@ -151,9 +153,7 @@ theorem sound_modulo (x y : IView) (s : Nat) (hx : x.WF) (hy : y.WF) (c : Ctx) (
     (hok : ModOk x y c.st) (hm : Mem c.st a) (hs : holds a (.modulo x y s) = true) :
     ∃ c', prune (.modulo x y s) c = some c' ∧ Mem c'.st a := by
   have h0 : 0 ≤ x.vmin c := hok.1
-  have hy0 : 0 < y.vmin c := hok.2.1
-  have hyr : y.vmax c - y.vmin c ≤ 10 := hok.2.2.1
-  have hxr : y.vmin c = y.vmax c ∨ x.vmax c - x.vmin c ≤ 10 := hok.2.2.2
+  have hy0 : 0 < y.vmin c := hok.2
   have hbx : x.vmin c ≤ x.eval a ∧ x.eval a ≤ x.vmax c := x.bounds hx hm
   have hby : y.vmin c ≤ y.eval a ∧ y.eval a ≤ y.vmax c := y.bounds hy hm
   have hbs := hm.bounds s
@@ -192,9 +192,23 @@ theorem sound_modulo (x y : IView) (s : Nat) (hx : x.WF) (hy : y.WF) (c : Ctx) (
           · simp only [hxm, if_false]
             split <;> omega
       · rw [if_neg h2]; exact Keeps.some hm
-    · refine cands_keeps m1 ?_
-      rw [hs]
-      exact modCands_mem hbx.1 hbx.2 hby.1 hby.2 hyr hxr
+    · by_cases hex : modExh (x.vmin c) (x.vmax c) (y.vmin c) (y.vmax c) = true
+      · have hyr : y.vmax c - y.vmin c ≤ 10 ∧ (y.vmin c = y.vmax c ∨ x.vmax c - x.vmin c ≤ 10) := by
+          unfold modExh at hex
+          by_cases e1 : y.vmin c = y.vmax c
+          · exact ⟨by omega, Or.inl e1⟩
+          · rw [if_neg e1] at hex
+            by_cases e2 : y.vmax c - y.vmin c ≤ 10
+            · rw [if_pos e2] at hex
+              exact ⟨e2, Or.inr (by simpa using hex)⟩
+            · rw [if_neg e2] at hex; cases hex
+        simp only [hex, Bool.not_true, Bool.false_or]
+        refine cands_keeps m1 ?_
+        rw [hs]
+        exact modCands_mem hbx.1 hbx.2 hby.1 hby.2 hyr.1 hyr.2
+      · have : modExh (x.vmin c) (x.vmax c) (y.vmin c) (y.vmax c) = false := by simpa using hex
+        simp only [this, Bool.not_false, Bool.true_or, if_true]
+        exact Keeps.some m1
     · by_cases h4 : y.vmin c = y.vmax c ∧ (c.st s).dmin = (c.st s).dmax ∧
           (c.st s).dmin ≥ 0 ∧ (c.st s).dmin < (y.vmin c).natAbs
       · rw [if_pos h4]
@@ -325,15 +339,10 @@ theorem raw_le (v : IView) (hwf : v.WF) {st : Store} (hne : NonEmpty st) :
 
 theorem modOk_good (x y : IView) (hx : x.WF) (hy : y.WF) {T : List Nat} {c c' : Ctx}
     (g : Good T c c') (hne : NonEmpty c.st) (h : ModOk x y c.st) : ModOk x y c'.st := by
-  obtain ⟨h0, hy0, hyr, hxr⟩ := h
+  obtain ⟨h0, hy0⟩ := h
   have mx := IView.raw_mono_good hx g hne
   have my := IView.raw_mono_good hy g hne
-  have lx := raw_le x hx (g.ne hne)
-  have ly := raw_le y hy (g.ne hne)
-  refine ⟨by omega, by omega, by omega, ?_⟩
-  rcases hxr with e | e
-  · left; omega
-  · right; omega
+  exact ⟨by omega, by omega⟩
 
 /-! ### kernel-checked counterexamples: each precondition is needed -/
 
@@ -358,30 +367,24 @@ theorem modulo_negative_kept :
     (prune (.modulo (.var 0) (.var 1) 2) { st := st3 [-7, -6] [3] [-1] }).isSome = true :=
   ⟨mem3 (by decide) (by decide) (by decide), by decide, by decide⟩
 
-/-- dividend boundary sampling: `x ∈ {0, 7, 20}` (range wider than 10), `y ∈ {3,4}`,
-`s ∈ {0,1,2,3}`; `7 % 4 = 3` is a solution in the store, but only `x ∈ {0, 20}` is sampled and the
-result loses `s = 3` (the new domain of `s` is `{0,1,2}`). -/
-theorem modulo_dividend_sampling_counterexample :
+/-- dividend boundary sampling (former finding `modulo-dividend-boundary-sampling`, repaired by
+`fix: Modulo takes bounds only from exhaustively enumerated remainders`): `x ∈ {0, 7, 20}` (range
+wider than 10), `y ∈ {3,4}`, `s ∈ {0,1,2,3}`; `7 % 4 = 3` is a solution in the store and `s = 3` is
+kept (only `x ∈ {0, 20}` would be sampled: the sample is no longer used) -/
+theorem modulo_dividend_sampling_kept :
     Mem (st3 [0, 7, 20] [3, 4] [0, 1, 2, 3]) (as3 7 4 3) ∧
     holds (as3 7 4 3) (.modulo (.var 0) (.var 1) 2) = true ∧
-    ∃ c', prune (.modulo (.var 0) (.var 1) 2) { st := st3 [0, 7, 20] [3, 4] [0, 1, 2, 3] } = some c' ∧
-      c'.st 2 = [0, 1, 2] ∧ as3 7 4 3 2 ∉ c'.st 2 := by
-  refine ⟨mem3 (by decide) (by decide) (by decide), by decide, ?_⟩
-  have h : (prune (.modulo (.var 0) (.var 1) 2) { st := st3 [0, 7, 20] [3, 4] [0, 1, 2, 3] }).map
-      (fun c' => c'.st 2) = some [0, 1, 2] := by decide
-  cases hp : prune (.modulo (.var 0) (.var 1) 2) { st := st3 [0, 7, 20] [3, 4] [0, 1, 2, 3] } with
-  | none => rw [hp] at h; cases h
-  | some c' =>
-    rw [hp] at h
-    have e : c'.st 2 = [0, 1, 2] := by simpa using h
-    exact ⟨c', rfl, e, by rw [e]; decide⟩
+    (prune (.modulo (.var 0) (.var 1) 2) { st := st3 [0, 7, 20] [3, 4] [0, 1, 2, 3] }).map
+      (fun c' => c'.st 2) = some [0, 1, 2, 3] :=
+  ⟨mem3 (by decide) (by decide) (by decide), by decide, by decide⟩
 
-/-- divisor boundary sampling: `x = 12`, `y ∈ {1, 5, 12}` (range wider than 10), `s = 2`;
-`12 % 5 = 2` is a solution in the store, but only `y ∈ {1, 12}` is sampled and the propagator fails. -/
-theorem modulo_divisor_sampling_counterexample :
+/-- divisor boundary sampling (former finding `modulo-divisor-boundary-sampling`): `x = 12`,
+`y ∈ {1, 5, 12}` (range wider than 10), `s = 2`; `12 % 5 = 2` is a solution and the propagator no
+longer fails -/
+theorem modulo_divisor_sampling_kept :
     Mem (st3 [12] [1, 5, 12] [2]) (as3 12 5 2) ∧
     holds (as3 12 5 2) (.modulo (.var 0) (.var 1) 2) = true ∧
-    prune (.modulo (.var 0) (.var 1) 2) { st := st3 [12] [1, 5, 12] [2] } = none :=
+    (prune (.modulo (.var 0) (.var 1) 2) { st := st3 [12] [1, 5, 12] [2] }).isSome = true :=
   ⟨mem3 (by decide) (by decide) (by decide), by decide, by decide⟩
 
 /-- zero divisor: `x = 1`, `y = 0`, `s = 5`, everything fixed; the propagator now fails (witness of
